@@ -406,7 +406,7 @@ def iso2(ctx):
         ctx.missing('sites', 'no keyed call in the replay arms')
 
 
-WHOLE_MAP = r'HashMap::<.*>::(iter|iter_mut|keys|values|values_mut|drain|retain|clear|into_iter|into_keys|into_values|extract_if)$'
+WHOLE_MAP = r'HashMap::<.*?>::(iter|iter_mut|keys|values|values_mut|drain|retain|clear|into_iter|into_keys|into_values|extract_if)(::<.*>)?$'
 KEYED = r'HashMap::<.*>::(get|get_mut|contains_key|insert|remove|entry|get_key_value|remove_entry)(::<.*>)?$'
 
 
@@ -440,7 +440,7 @@ def iso3(ctx):
                 ctx.check(ok, key, where(b, cs.point), 'map accessed with the function\'s own queue argument as key', 'the queue map is accessed with a key that is not the function\'s queue argument')
             elif re.search(WHOLE_MAP, cs.name):
                 n += 1
-                mutating = re.search(r'(iter_mut|values_mut|drain|retain|clear|into_iter|into_keys|into_values|extract_if)$', cs.name) is not None
+                mutating = re.search(r'::(iter_mut|values_mut|drain|retain|clear|into_iter|into_keys|into_values|extract_if)(::<.*>)?$', cs.name) is not None
                 if qps:
                     ctx.bad(key, where(b, cs.point), 'a keyed function walks the whole queue map (%s): an operation on one queue can touch the others' % m)
                 elif mutating:
@@ -745,11 +745,13 @@ def ma(ctx):
             for cs in cb.calls:
                 names.add(method_name(cs.name))
                 names.add(cs.path)
+                if cs.name.startswith('std::string::String::'):
+                    names.add('String::' + method_name(cs.name))
             cl[fj['node']] = names
     used_cl = [n for n, names in cl.items() if 'mem::queue::MemQueue::size' in names]
     cap_cl = [n for n, names in cl.items() if 'mem::queue::MemQueue::capacity' in names]
-    ok_u = bool(used_cl) and all('len' in cl[n] and 'capacity' not in cl[n] for n in used_cl)
-    ok_c = bool(cap_cl) and all('capacity' in cl[n] for n in cap_cl)
+    ok_u = bool(used_cl) and all('String::len' in cl[n] and 'String::capacity' not in cl[n] and 'mem::queue::MemQueue::capacity' not in cl[n] for n in used_cl)
+    ok_c = bool(cap_cl) and all('String::capacity' in cl[n] for n in cap_cl)
     ctx.check(ok_u and ok_c, 'name-pair', b.span, 'used adds name.len() + queue.size(); allocated adds name.capacity() + queue.capacity()', 'queue names are not accounted as len() in used and capacity() in allocated')
     # tuple order and mapping in resource_usage
     ru = [x for x in root_bodies(ctx) if x.ret_ty == 'ResourceUsage']
